@@ -37,6 +37,7 @@ func runC18(c *Check) {
 			for _, o := range RetOrigins(r, 0) {
 				if f := FuncOfValue(o); f != nil && f.Parent() == fn && len(ParamsOfType(f, tMessagePtr)) == 1 {
 					c15OriginalMessageCtx(c, P+".O3", f, "command")
+					c15FreshTarget(c, P+".O3", f, "command")
 				}
 			}
 		}
@@ -125,8 +126,8 @@ func runC18(c *Check) {
 		for _, hc := range hnCalls {
 			okID := false
 			for _, a := range hc.Common().Args {
-				if a.Type().String() == "string" {
-					okID = AllOrigins(a, func(o ssa.Value) bool {
+				if b, isB := a.Type().Underlying().(*types.Basic); isB && b.Kind() == types.String {
+					okID = AllOrigins(unwrapStringConv(a), func(o ssa.Value) bool {
 						f := LoadedField(o)
 						if f == nil || f.Name() != "OperationID" {
 							return false
@@ -235,7 +236,13 @@ func runC18(c *Check) {
 
 func c18Filter(c *Check, P string, hn *ssa.Function, isKeyGet func(ssa.Value, func(ssa.Value) bool) bool) {
 	msg := ParamsOfType(hn, tMessagePtr)[0]
-	ids := ParamsOfType(hn, "string")
+	// the expected id: a parameter that is a string, plain or named (OperationID)
+	var ids []*ssa.Parameter
+	for _, prm := range hn.Params {
+		if b, isB := prm.Type().Underlying().(*types.Basic); isB && b.Kind() == types.String {
+			ids = append(ids, prm)
+		}
+	}
 	if !c.Floor(P+".O1", "expected-id parameter of the filter", len(ids), 1) {
 		return
 	}
@@ -244,7 +251,7 @@ func c18Filter(c *Check, P string, hn *ssa.Function, isKeyGet func(ssa.Value, fu
 		if t.Op != token.EQL || t.Y == nil {
 			continue
 		}
-		x, y := t.X, t.Y
+		x, y := unwrapStringConv(t.X), unwrapStringConv(t.Y)
 		if FromParam(ids[0])(x) {
 			x, y = y, x
 		}
@@ -301,6 +308,35 @@ func c18Filter(c *Check, P string, hn *ssa.Function, isKeyGet func(ssa.Value, fu
 }
 
 func c18Finish(c *Check, P string, listen, lit *ssa.Function, goLit *ssa.Go) {
+	// the reply channel's buffer belongs to the caller: the listener only sends into it and closes it
+	isReplyCh := func(v ssa.Value) bool {
+		return AllOrigins(v, func(o ssa.Value) bool { _, ok := o.(*ssa.MakeChan); return ok && o.Parent() == listen })
+	}
+	nrecv := 0
+	for _, f := range WithAnon(listen) {
+		AllInstrs(f, func(in ssa.Instruction) {
+			switch x := in.(type) {
+			case *ssa.UnOp:
+				if x.Op == token.ARROW && isReplyCh(x.X) {
+					nrecv++
+					c.Report(false, P+".O4", "LISTENER-NEVER-TAKES-A-REPLY-BACK", f, x.Pos(), "receive from the reply channel", "the listener never receives from the reply channel: a reply it has buffered stays there until the caller reads it")
+				}
+			case *ssa.Select:
+				for _, st := range x.States {
+					if st.Dir == types.RecvOnly && isReplyCh(st.Chan) {
+						nrecv++
+						c.Report(false, P+".O4", "LISTENER-NEVER-TAKES-A-REPLY-BACK", f, x.Pos(), "receive from the reply channel", "the listener never receives from the reply channel: a reply it has buffered stays there until the caller reads it")
+					}
+				}
+			case *ssa.Range:
+				if isReplyCh(x.X) {
+					nrecv++
+					c.Report(false, P+".O4", "LISTENER-NEVER-TAKES-A-REPLY-BACK", f, x.Pos(), "range over the reply channel", "the listener never receives from the reply channel")
+				}
+			}
+		})
+	}
+	c.Report(true, P+".O4", "REPLY-CHANNEL-RECEIVES-SCANNED", listen, listen.Pos(), "ListenForNotifications", fmt.Sprintf("%d receives from the reply channel inside the listener", nrecv))
 	var dClose, dCancel, dFinish []*ssa.Defer
 	AllInstrs(lit, func(in ssa.Instruction) {
 		d, ok := in.(*ssa.Defer)
@@ -336,12 +372,72 @@ func c18Finish(c *Check, P string, listen, lit *ssa.Function, goLit *ssa.Go) {
 		}
 		c.Report(ok, P+".O4", "FINISH-ONCE", lit, pos, what, why)
 	}
-	chk(dClose, "defer close(replyChan)", "the reply channel is closed exactly once, by a defer registered at the goroutine's entry (every exit closes it)")
-	chk(dCancel, "defer cancel()", "the listener's context is cancelled exactly once on exit")
+	// close and cancel may also sit, once and on every path, inside the one deferred closure that runs the hook
+	inFinish := func(isIt func(ssa.CallInstruction) bool) (ssa.CallInstruction, bool) {
+		if len(dFinish) != 1 || dFinish[0].Block() != entry {
+			return nil, false
+		}
+		f := FuncOfValue(dFinish[0].Call.Value)
+		if f == nil {
+			return nil, false
+		}
+		var hits []ssa.CallInstruction
+		for _, cl := range CallsIn(f) {
+			if _, isCall := cl.(*ssa.Call); isCall && isIt(cl) {
+				hits = append(hits, cl)
+			}
+		}
+		if len(hits) != 1 || InLoop(hits[0]) {
+			return nil, false
+		}
+		for _, r := range Returns(f) {
+			if !Dominates(f, hits[0], r) {
+				return nil, false
+			}
+		}
+		return hits[0], true
+	}
+	isReplyChan := func(v ssa.Value) bool {
+		return AllOrigins(v, func(o ssa.Value) bool { _, ok := o.(*ssa.MakeChan); return ok && o.Parent() == listen })
+	}
+	var closeInFinish ssa.CallInstruction
+	if len(dClose) == 0 {
+		if cl, ok := inFinish(func(cl ssa.CallInstruction) bool {
+			b, isB := cl.Common().Value.(*ssa.Builtin)
+			return isB && b.Name() == "close"
+		}); ok {
+			closeInFinish = cl
+			c.Report(true, P+".O4", "FINISH-ONCE", lit, cl.Pos(), "close(replyChan) in the deferred closure", "the reply channel is closed exactly once, on every path of the one closure deferred at the goroutine's entry")
+		} else {
+			chk(dClose, "defer close(replyChan)", "the reply channel is closed exactly once, by a defer registered at the goroutine's entry (every exit closes it)")
+		}
+	} else {
+		chk(dClose, "defer close(replyChan)", "the reply channel is closed exactly once, by a defer registered at the goroutine's entry (every exit closes it)")
+	}
+	if len(dCancel) == 0 {
+		if cl, ok := inFinish(func(cl ssa.CallInstruction) bool {
+			return !cl.Common().IsInvoke() && CalleeFn(cl.Common()) == nil && cl.Common().Signature().Params().Len() == 0 && cl.Common().Signature().Results().Len() == 0 &&
+				AnyOrigin(cl.Common().Value, func(o ssa.Value) bool {
+					e, isE := o.(*ssa.Extract)
+					if !isE || e.Index != 1 {
+						return false
+					}
+					wc, isC := e.Tuple.(*ssa.Call)
+					return isC && (CalleeName(wc) == nWithCancel || CalleeName(wc) == nWithTimeout)
+				})
+		}); ok {
+			c.Report(true, P+".O4", "FINISH-ONCE", lit, cl.Pos(), "cancel() in the deferred closure", "the listener's context is cancelled exactly once on exit")
+		} else {
+			chk(dCancel, "defer cancel()", "the listener's context is cancelled exactly once on exit")
+		}
+	} else {
+		chk(dCancel, "defer cancel()", "the listener's context is cancelled exactly once on exit")
+	}
 	chk(dFinish, "defer OnListenForReplyFinished", "the finish hook is deferred exactly once at the goroutine's entry (runs on every exit)")
 	if len(dClose) == 1 {
-		okCh := AllOrigins(dClose[0].Call.Args[0], func(o ssa.Value) bool { _, ok := o.(*ssa.MakeChan); return ok && o.Parent() == listen })
-		c.Report(okCh, P+".O4", "FINISH-CLOSES-REPLY-CHANNEL", lit, dClose[0].Pos(), "defer close(replyChan)", "the closed channel is the one returned to the caller")
+		c.Report(isReplyChan(dClose[0].Call.Args[0]), P+".O4", "FINISH-CLOSES-REPLY-CHANNEL", lit, dClose[0].Pos(), "defer close(replyChan)", "the closed channel is the one returned to the caller")
+	} else if closeInFinish != nil {
+		c.Report(isReplyChan(closeInFinish.Common().Args[0]), P+".O4", "FINISH-CLOSES-REPLY-CHANNEL", lit, closeInFinish.Pos(), "close(replyChan)", "the closed channel is the one returned to the caller")
 	}
 	// the finish hook is called at most once inside its closure and only skipped when unset
 	for _, d := range dFinish {
@@ -501,10 +597,10 @@ func c18Processed(c *Check, P string, fn *ssa.Function, key string, isKeyGet fun
 	// only the tests that come after the error handler had its chance count as "final"
 	var finalOK []Edge
 	for _, e := range okE {
-		term := e.From.Instrs[len(e.From.Instrs)-1]
 		post := true
+		re := ReachEdge(e, nil)
 		for _, h := range eh {
-			if ReachAfter(term, nil)[h] {
+			if re[h] {
 				post = false
 			}
 		}
@@ -896,4 +992,23 @@ func c18ListenerTimeout(c *Check, P string, listen *ssa.Function) {
 		})
 		c.Report(okS, P+".O5", "TIMEOUT-BOUNDS-LISTENER", listen, s.Pos(), "listener context", "the listener's context (used by Subscribe and by every escapable send/receive of the listener) is the one bounded by ListenForReplyTimeout")
 	}
+}
+
+// unwrapStringConv strips a conversion between string types (string(id), OperationID(s)).
+func unwrapStringConv(v ssa.Value) ssa.Value {
+	for i := 0; i < 3; i++ {
+		switch x := v.(type) {
+		case *ssa.ChangeType:
+			v = x.X
+		case *ssa.Convert:
+			if b, ok := x.X.Type().Underlying().(*types.Basic); ok && b.Kind() == types.String {
+				v = x.X
+			} else {
+				return v
+			}
+		default:
+			return v
+		}
+	}
+	return v
 }
